@@ -288,3 +288,86 @@ def replay(payload):
     r = main({})
     hit = [f for f in r['failures'] if f['key'] == rep['key']]
     return {'reproduced': bool(hit), 'failure': hit[:1]}
+
+
+# ---------------------------------------------------------------------------------------------------------------------
+# C16 finite obligation: every name-binding construct of the language reference ("Naming and binding", 4.2.1), one
+# minimal function per construct; the classification of the bound name `v` must be what CPython's compiler says
+
+BINDING_CONSTRUCTS = [
+    ('assignment', 'v = 1'), ('augmented_assignment', 'v = 0\n    v += 1'), ('annotated_assignment', 'v: int = 1'),
+    ('for_target', 'for v in x: pass'), ('for_tuple_target', 'for (a, v) in x: pass'),
+    ('with_as', 'with x as v: pass'), ('except_as', 'try: pass\n    except E as v: pass'),
+    ('import', 'import v'), ('import_as', 'import m as v'), ('import_dotted', 'import v.w'),
+    ('from_import', 'from m import v'), ('from_import_as', 'from m import w as v'),
+    ('def_name', 'def v(): pass'), ('async_def_name', 'async def v(): pass'), ('class_name', 'class v: pass'),
+    ('walrus', '(v := 1)'), ('del_only', 'print(v); del v'), ('starred_target', 'a, *v = x'),
+    ('match_capture', 'match x:\n        case v: pass'), ('match_as', 'match x:\n        case 1 as v: pass'),
+    ('match_star', 'match x:\n        case [a, *v]: pass'), ('match_mapping_rest', 'match x:\n        case {1: a, **v}: pass'),
+    ('match_class_kw', 'match x:\n        case C(k=v): pass'),
+    ('global_decl', 'global v\n    v = 1'), ('nonlocal_decl', None),
+    ('param', None), ('param_posonly', None), ('param_kwonly', None), ('param_vararg', None), ('param_kwarg', None),
+    ('type_param', None), ('type_alias', 'type v = int'),
+]
+
+
+def _construct_src(name, body):
+    if name == 'nonlocal_decl':
+        return 'def o():\n  v = 0\n  def f():\n    nonlocal v\n    v = 1\n    return v\n', 'f'
+    hdr = {'param': 'def f(v):', 'param_posonly': 'def f(v, /):', 'param_kwonly': 'def f(*, v):',
+           'param_vararg': 'def f(*v):', 'param_kwarg': 'def f(**v):', 'type_param': 'def f[v]():'}.get(name)
+    if hdr:
+        return f'{hdr}\n    return v\n', 'f'
+    return f'def f():\n    {body}\n    return v\n', 'f'
+
+
+def finite_binding_constructs(payload):
+    import ast as _ast
+    from fst import FST
+    out = {'checked': [], 'failures': []}
+    for name, body in BINDING_CONSTRUCTS:
+        src, fname = _construct_src(name, body)
+        try:
+            top = symtable.symtable(src, '<c16>', 'exec')
+            tree = _ast.parse(src)
+        except SyntaxError:
+            continue
+        node = next(n for n in _ast.walk(tree) if isinstance(n, (_ast.FunctionDef,)) and n.name == fname)
+        table = find_table(top, node)
+        try:
+            s = table.lookup('v')
+        except KeyError:
+            continue
+        root = FST(src, 'exec')
+        fnode = next(n for n in root.walk(True) if n.a.__class__.__name__ == 'FunctionDef' and n.a.name == fname)
+        key = f'C16.binding_constructs[{name}]'
+        out['checked'].append(key)
+        try:
+            syms = fnode.scope_symbols(full=True)
+        except Exception as e:
+            out['failures'].append({'key': key, 'what': f'scope_symbols raised {e!r} on {src!r}', 'program': src,
+                                    'replayed': True})
+            continue
+        want = {'local': s.is_local() and (s.is_assigned() or s.is_parameter() or s.is_imported()) or
+                (s.is_local() and name == 'del_only'),
+                'global': s.is_declared_global(), 'nonlocal': s.is_nonlocal(),
+                'bound_here': s.is_assigned() or s.is_parameter() or s.is_imported()}
+        got = {'local': 'v' in syms.get('local', {}), 'global': 'v' in syms.get('global', {}),
+               'nonlocal': 'v' in syms.get('nonlocal', {}),
+               'bound_here': 'v' in syms.get('store', {}) or 'v' in syms.get('local', {}) and name.startswith('param')
+               or ('v' in syms.get('store', {}))}
+        if name.startswith(('param', 'type_param')):
+            got['bound_here'] = got['local']
+        diff = {k: (want[k], got[k]) for k in want if bool(want[k]) != bool(got[k])}
+        if diff:
+            out['failures'].append({'key': key, 'what': f'the name bound by {name} ({src!r}): CPython says '
+                                    f'{ {k: v[0] for k, v in diff.items()} }, scope_symbols says '
+                                    f'{ {k: v[1] for k, v in diff.items()} }', 'program': src, 'replayed': True})
+    return out
+
+
+def replay_binding(payload):
+    rep = payload.get('replay') or payload
+    r = finite_binding_constructs({})
+    hit = [f for f in r['failures'] if f['key'] == rep.get('key')]
+    return {'reproduced': bool(hit), 'failure': hit[:1]}
